@@ -18,7 +18,8 @@ RULE = (
 )
 ASSUMPTIONS = [
     "an edge with two admissible weights may contribute either weight to the cycle latency",
-    "the LCD column is read back from Frontend.combined_view with the positional report parser",
+    "the LCD column, summary figure and LCD list are read back from Frontend.full_analysis (the text the CLI "
+    "prints) with the positional report parser",
 ]
 MIN_NONTRIVIAL = {"quick": 300, "thorough": 3000}
 
@@ -113,11 +114,16 @@ def check_case(case):
     from lib import report
     lcd_raw = dg.get_loopcarried_dependencies()
     cp_k = guard(dg.get_critical_path, what="get_critical_path")
-    text = guard(fe.combined_view, kernel, cp_k, lcd_raw, True, what="combined_view")
+    # (the complete text report, as the CLI prints it: combined view + list of loop-carried dependencies)
+    text = guard(fe.full_analysis, kernel, dg, ignore_unknown=True, what="full_analysis")
     try:
         rep = report.parse(text)
     except report.ReportError as e:
-        raise Violation("report-format", "combined view cannot be parsed back: %s" % e, text[-400:], None)
+        raise Violation("report-format", "text report cannot be parsed back: %s" % e, text[-400:], None)
+    listed = sorted(round(float(l["latency"]), 6) for l in rep["lcds"])
+    if listed != sorted(round(v, 6) for v in got.values()):
+        raise Violation("lcd-list:" + tag, "the list of loop-carried dependencies in the text report does not show "
+                        "every cycle with its latency", listed, sorted(round(v, 6) for v in got.values()))
     fl = case.get("first_line", 0)
     marked = {l["lineno"] - fl - 1: float(l["lcd"]) for l in rep["lines"] if l["lcd"] != ""}
     cands = [{n.line_number - fl - 1: float(lat) for n, lat in v["dependencies"]} for v in lcd_raw.values()
